@@ -10,7 +10,12 @@ use iggy::utils::expiry::IggyExpiry;
 use iggy::utils::timestamp::IggyTimestamp;
 use std::sync::atomic::{AtomicU64, Ordering};
 use std::sync::Arc;
+#[cfg(not(kani))]
 use tokio::fs::remove_file;
+#[cfg(kani)]
+use iggy::verif_model::fs::remove_file;
+#[cfg(kani)]
+use iggy::verif_model::shim as tokio;
 use tracing::{info, warn};
 
 #[derive(Debug)]
